@@ -70,6 +70,10 @@ def assess(g, case, gf):
     g.eq("assess density == sum of site log probabilities", d, logp)
     g.eq("assess retval == program return value", r, ref.get_retval())
     g.eq("log_density == density", ld, logp)
+    nc = getattr(T.ctx, "nan_conds", [])
+    if nc:
+        g.holds("assess is NaN-free on choice maps in the support (no 0 * -inf from an untaken branch of zero density)",
+                z3.Not(z3.Or(*nc)))
     # teeth: dropping one site's term from the reference must be refuted
     if rctx.sites:
         s0 = rctx.sites[0]
